@@ -279,14 +279,18 @@ def extract_lexer(F: Facts, g: Optional[Grammar] = None) -> LexSpec:
     srules: List[LexRule] = []
     ignore = ''
     errf = None
+    eof_func = None
     for name, node in lex_m.defs.items():
         if isinstance(node, ast.FunctionDef) and name.startswith('t_'):
             tn = name[2:]
             if tn == 'error':
                 errf = node
                 continue
-            if tn in ('eof', 'ignore'):
-                raise AnalysisError('lexer: t_%s as a function is not modelled' % tn)
+            if tn == 'eof':
+                eof_func = node          # PLY calls it when the input is exhausted; not part of the master regex
+                continue
+            if tn == 'ignore':
+                raise AnalysisError('lexer: t_ignore as a function is not modelled')
             if node.decorator_list:
                 raise AnalysisError('lexer: decorated token rule %s is not modelled' % name)
             doc = ast.get_docstring(node, clean=False)
@@ -315,4 +319,6 @@ def extract_lexer(F: Facts, g: Optional[Grammar] = None) -> LexSpec:
         tokens = tuple(module_value(F, lex_m, 'tokens'))
     except NotLiteral as e:
         raise AnalysisError('lexer: tokens not literal: %s' % e)
-    return LexSpec(lex_m, frules + srules, ignore, errf, tokens, re.VERBOSE)
+    spec = LexSpec(lex_m, frules + srules, ignore, errf, tokens, re.VERBOSE)
+    spec.eof_func = eof_func  # type: ignore
+    return spec
